@@ -143,6 +143,8 @@ def install(I):
                 cur = I.coerce(star, ATTR) if star.kind != ATTR else SV(ATTR, star.tree)
             elif (isinstance(star, dict) and not star) or type(star).__name__ == "EmptyLit":
                 pass
+            elif isinstance(star, dict):
+                kw = dict(star, **{k: v for k, v in kw.items() if k != "**"})     # a static record built by the code
             else:
                 raise Unsupported("** of %r" % (star,))
         pairs = [(k, v) for k, v in kw.items() if k != "**"]
